@@ -17,7 +17,9 @@ META = dict(
     text="histories over {genuine with state number last+1, +2, +50, +99, last, last-1, last-5, +100, +150; wrong key; right header id but sealed for another advertising id; inner counter != nonce "
     "counter; truncated payloads 0..15 bytes; unknown iid} from several base state numbers, every single-bit flip of payload+tag and of the advertising id, formats x values; oracle: a "
     "notification reaches listeners / changes state only if authentic, inner = nonce counter and newer than the last accepted one; an accepted one is delivered under (1,iid) with the "
-    "format's decoding and advances description.state_num to its GSN; otherwise nothing changes; the scanner callback never raises Base states include the last state numbers before 65535, replays of broadcasts recorded long ago under the same key, and the empty payload.",
+    "format's decoding and advances description.state_num to its GSN; otherwise nothing changes; the scanner callback never raises Base states include the last state numbers before 65535, replays of broadcasts recorded long ago under the same key, and the empty payload. Also a process restart on the same characteristic cache (what the accessory's regular advertisement had made durable is not forgotten), "
+    "and a connected-session leg (c18_conn.py): a real BlePairing with a GATT session against the reference accessory at state number 65534 / 300 - subscribe, start-notify, GATT notification (once-per-session bump, roll-over, key request "
+    "held in flight and released), link drop, reconnect - with a replay of a finished epoch's broadcast at every point.",
     note="a 4-byte tag is forgeable with probability 2^-32 per try by design (not enumerable); only-if reading of acceptance (the upper window bound is not demanded)",
     design_ref="DESIGN.md §4 C18",
     rule="state = canonical (description.state_num, cached state_num, listener log length); transition = one advertisement processed by the real callback; history depth as reported",
@@ -313,6 +315,18 @@ def case_history(p):
 
 
 CASES = {"history": case_history}
+from vt.props import c18_conn  # noqa: E402
+
+CASES.update(c18_conn.CASES)
+
+
+def _conn(item, seed, tier):
+    from vt import explore
+
+    acc = core.Acc()
+    p, root, depth = item
+    explore.explore(lambda: c18_conn.ConnH(p), acc, depth=depth, case="conn", params=p, root=root, prune=True, finish=True)
+    return acc
 
 
 def disc_state(rig):
@@ -400,6 +414,15 @@ def run(ctx):
     CARRY = ["+1", "+1:iid12", "+1:iid15", "db-swap", "neighbour:+1", "cross:from-neighbour", "same", "old:1", "unknown-iid", "regular-adv", "reload-pairing", "restart", "-1"]
     work += [(b, 4 if quick else 6, CARRY) for b in ([300] if quick else [1, 300, 65500])]
     ctx.pmap(_bfs, work)
+    # broadcasts while the pairing holds a GATT session (the once-per-session bump of the state number, the roll-over and its key request in flight)
+    from vt import explore as _ex
+
+    cw = []
+    for cp, d in ((dict(base=65534), 6 if quick else 8), (dict(base=300, alphabet=["sub", "timer", "notify", "bcast:old", "drop", "use"]), 5 if quick else 7)):
+        cp = dict(cp, seed=ctx.seed)
+        cw += [(cp, r, d) for r in _ex.roots(lambda: c18_conn.ConnH(cp), 2)]
+    ctx.pmap(_conn, cw)
+    ctx.bounds.update(connected_leg=dict(alphabet=c18_conn.ALPH, bases=[65534, 300], depth=6 if quick else 8))
     flips = []
     for b in bases:
         bits = list(range(16 * 8))
